@@ -21,6 +21,8 @@ RULE = ("both pairing-friendly curves: subgroup elements, twist points outside t
 
 IDS = {"base": [23, 24]}
 GM = ["mul", "sec", "any", "gen", "dig", "fix", "mul!", "sec!", "dig!"]
+# the boundary of the one-digit path of g1_mul / g2_mul (bn_bits(k) <= RLC_DIG), both signs
+EDGE = [0, 1, -1, 2, -3, 0xffff, (1 << 63), -(1 << 63), (1 << 64) - 1, -((1 << 64) - 1), 1 << 64, -(1 << 64), (1 << 64) + 1, -((1 << 64) + 1)]
 GTE = ["exp", "sec", "dig", "gen", "sim", "exp!", "sec!", "dig!"]
 
 
@@ -84,12 +86,16 @@ def gen_lines(rng, ex, cid, st, count):
         elif k < 52:
             v = rng.choice(GM)
             kk = c03.scalar(rng, st.n)
+            if v.startswith("mul") and rng.chance(1, 2):
+                kk = rng.choice(EDGE)
             if v.startswith("dig"):
                 kk = abs(kk) & ((1 << 64) - 1)
             out.append("g1m %s %s %s" % (v, t1(rng.choice(pool1 + [None]), v), hx(kk)))
         elif k < 66:
             v = rng.choice(GM)
             kk = c03.scalar(rng, st.n)
+            if v.startswith("mul") and rng.chance(1, 2):
+                kk = rng.choice(EDGE)
             if v.startswith("dig"):
                 kk = abs(kk) & ((1 << 64) - 1)
             out.append("g2m %s %s %s" % (v, t2(rng.choice(pool2 + [None]), v), hx(kk)))
@@ -138,6 +144,7 @@ def _stream(ctx, cfg, per):
             continue
         st = pg.Setting(kv)
         lines.append("pc_param %d" % cid)
+        lines.append("ep_param %d" % cid)
         lines.append("ep2_param %d" % cid)
         lines.append("pc_param %d" % cid)
         lines += gen_lines(ctx.rng, ex, cid, st, per)
